@@ -98,6 +98,14 @@ pub fn run<A: Cx>(d: &mut Drv<A>, scale: usize, all_offsets: bool) {
                 d.emit(json!({"op": "eq", "x": opnd("slice", ys.clone()), "y": opnd("seq", whole(1))}));
                 d.emit(json!({"op": "eq", "x": opnd("seq", whole(4)), "y": opnd("slice", xs.clone())}));
                 d.emit(json!({"op": "eq", "x": opnd("slice", ys.clone()), "y": opnd("slice", xs.clone())}));
+                // a value compared with ITSELF (the same object on both sides), in every form
+                if vi == 0 {
+                    d.emit(json!({"op": "eq", "x": opnd("seq", whole(1)), "y": opnd("seq", whole(1))}));
+                    d.emit(json!({"op": "eq", "x": opnd("refseq", whole(2)), "y": opnd("refseq", whole(2))}));
+                    d.emit(json!({"op": "eq", "x": opnd("seq", whole(2)), "y": opnd("refslice", whole(2))}));
+                    d.emit(json!({"op": "eq", "x": opnd("slice", xs.clone()), "y": opnd("seq", whole(0))}));
+                    d.emit(json!({"op": "eq", "x": opnd("slice", whole(0)), "y": opnd("seq", whole(0))}));
+                }
                 // display text: own and the other's
                 let dx: Vec<u8> = x.iter().map(|&c| crate::world::sym::<A>(c).to_char() as u8).collect();
                 let dy: Vec<u8> = y.iter().map(|&c| crate::world::sym::<A>(c).to_char() as u8).collect();
